@@ -318,6 +318,113 @@ def undo_extractions(modules: Dict[str, ast.Module], known_quals: set, log: List
                 break
 
 
+# ---------------------------------------------------------------------------------------------------------------
+# undo "extract search loop": v = find_first(..); if v is None: A; B(v)   ==   for x in S: if P(x): B(x);  A
+def _terminates(stmts) -> bool:
+    if not stmts:
+        return False
+    last = stmts[-1]
+    if isinstance(last, (ast.Return, ast.Raise)):
+        return True
+    if isinstance(last, ast.If):
+        return _terminates(last.body) and _terminates(last.orelse)
+    return False
+
+
+def undo_find_first_helpers(modules: Dict[str, ast.Module], known_quals: set, log: List[str]):
+    """A module-level function the reference does not know, of the shape `for x in <iterable>: if <P(x)>: return x` + `return None`, called once as
+    `v = helper(args)` with the next statement testing `v is None`: when the not-found arm A and the found arm B (everything that follows) both end
+    in return/raise, the search loop is put back around B:  for x in S: if P(x): B[x for v]; then A."""
+    for mname, tree in modules.items():
+        for fn in [st for st in tree.body if isinstance(st, ast.FunctionDef) and f"{mname}.{st.name}" not in known_quals]:
+            body = [s_ for s_ in fn.body if not (isinstance(s_, ast.Expr) and isinstance(s_.value, ast.Constant))]
+            if not (1 <= len(body) <= 2 and isinstance(body[0], ast.For) and not body[0].orelse and isinstance(body[0].target, ast.Name)
+                    and len(body[0].body) == 1 and isinstance(body[0].body[0], ast.If) and not body[0].body[0].orelse
+                    and len(body[0].body[0].body) == 1 and isinstance(body[0].body[0].body[0], ast.Return)
+                    and isinstance(body[0].body[0].body[0].value, ast.Name) and body[0].body[0].body[0].value.id == body[0].target.id):
+                continue
+            if len(body) == 2 and not (isinstance(body[1], ast.Return) and (body[1].value is None or (isinstance(body[1].value, ast.Constant) and body[1].value.value is None))):
+                continue
+            if fn.args.vararg or fn.args.kwarg or fn.args.kwonlyargs or fn.args.defaults or fn.decorator_list:
+                continue
+            refs = [n for n in ast.walk(tree) if (isinstance(n, ast.Name) and n.id == fn.name) or (isinstance(n, ast.Attribute) and n.attr == fn.name)]
+            calls = [c for c in ast.walk(tree) if isinstance(c, ast.Call) and isinstance(c.func, ast.Name) and c.func.id == fn.name]
+            if len(calls) != 1 or len(refs) != 1:
+                continue
+            call = calls[0]
+            params = [a.arg for a in fn.args.args]
+            if call.keywords or len(call.args) != len(params) or not all(_simple(a) for a in call.args):
+                continue
+            site = None
+            for holder in ast.walk(tree):
+                for fld in ("body", "orelse", "finalbody"):
+                    lst = getattr(holder, fld, None)
+                    if isinstance(lst, list):
+                        for i, st in enumerate(lst):
+                            if isinstance(st, ast.Assign) and st.value is call and len(st.targets) == 1 and isinstance(st.targets[0], ast.Name):
+                                site = (holder, lst, i, st)
+            if site is None:
+                continue
+            holder, lst, i, st = site
+            v = st.targets[0].id
+            if i + 1 >= len(lst) or not isinstance(lst[i + 1], ast.If):
+                continue
+            test = lst[i + 1].test
+            neg = False
+            t = test
+            if isinstance(t, ast.UnaryOp) and isinstance(t.op, ast.Not):
+                neg, t = True, t.operand
+            is_none = isinstance(t, ast.Compare) and len(t.ops) == 1 and isinstance(t.left, ast.Name) and t.left.id == v and \
+                isinstance(t.comparators[0], ast.Constant) and t.comparators[0].value is None and isinstance(t.ops[0], (ast.Is, ast.IsNot))
+            if not is_none:
+                continue
+            none_when_true = isinstance(t.ops[0], ast.Is) != neg
+            iff = lst[i + 1]
+            if none_when_true:
+                A, B = iff.body, (iff.orelse or lst[i + 2:])
+                tail_used = not iff.orelse
+            else:
+                B, A = iff.body, (iff.orelse or lst[i + 2:])
+                tail_used = not iff.orelse
+            if not _terminates(A) or not _terminates(B):
+                continue
+            # v is read only in the test and in B, bound only here
+            fn_holder = None
+            for f2 in ast.walk(tree):
+                if isinstance(f2, (ast.FunctionDef, ast.AsyncFunctionDef)) and any(x is st for x in ast.walk(f2)):
+                    fn_holder = f2
+            if fn_holder is None:
+                continue
+            stores = [n for n in ast.walk(fn_holder) if isinstance(n, ast.Name) and n.id == v and isinstance(n.ctx, (ast.Store, ast.Del))]
+            reads_A = [n for s_ in A for n in ast.walk(s_) if isinstance(n, ast.Name) and n.id == v]
+            if len(stores) != 1 or reads_A:
+                continue
+            binding = dict(zip(params, call.args))
+            loop_var = body[0].target.id
+
+            class Sub(ast.NodeTransformer):
+                def __init__(self, env):
+                    self.env = env
+
+                def visit_Name(self, n):
+                    if n.id in self.env and isinstance(n.ctx, ast.Load):
+                        return ast.copy_location(copy.deepcopy(self.env[n.id]), n)
+                    return n
+            new_iter = Sub(binding).visit(copy.deepcopy(body[0].iter))
+            new_test = Sub(binding).visit(copy.deepcopy(body[0].body[0].test))
+            x_name = ast.Name(id=loop_var, ctx=ast.Load())
+            new_B = [Sub({v: x_name}).visit(copy.deepcopy(s_)) for s_ in B]
+            loop = ast.For(target=ast.Name(id=loop_var, ctx=ast.Store()), iter=new_iter,
+                           body=[ast.If(test=new_test, body=new_B, orelse=[])], orelse=[], type_comment=None)
+            ast.copy_location(loop, st)
+            new_stmts = [loop] + [copy.deepcopy(s_) for s_ in A]
+            for s_ in new_stmts:
+                ast.fix_missing_locations(s_)
+            lst[i:] = new_stmts if tail_used else new_stmts + lst[i + 2:]
+            tree.body.remove(fn)
+            log.append(f"{mname}.{fn.name} (first-match search helper) put back as a loop around its single use")
+
+
 def _find_site(tree, call):
     """(statement list, index, statement, call-is-the-whole-value) of the simple statement that evaluates `call`"""
     for holder in ast.walk(tree):
